@@ -248,6 +248,9 @@ def to_blackbird(prog: Program, version: str = "1.0") -> blackbird.BlackbirdProg
 
         else:
             for a in _op_parameters(cmd.op):
+                if sfpar.par_is_symbolic(a) and not sfpar.is_object_array(a) and not a.free_symbols:
+                    # SymPy number (e.g. from a symbolic decomposition), convert to a number
+                    a = sfpar.par_evaluate(a)
                 if sfpar.par_is_symbolic(a):
                     # SymPy object, convert to string
                     if any(map(isMeasuredParameter, a.free_symbols)):
